@@ -175,6 +175,16 @@ func c05Scenes(args []string) error {
 
 func c08Scenes(args []string) error {
 	rnd := rand.New(rand.NewSource(seed()))
+	// a very deep quadtree (17 levels): a long thin box at more than 2^15 cells
+	{
+		thin := sdf.Box2D(v2.Vec{X: 1000, Y: 1}, 0)
+		o := stat2("thin-box-deep", "1000x1", thin, "msq", 33000, 0, 0, 0)
+		emit(o)
+		if tier() == "thorough" {
+			emit(stat2("thin-box-deep", "1000x1", thin, "msq", 41000, 0, 0, 0))
+			emit(stat2("thin-box-deep", "1000x1", sdf.Transform2D(thin, sdf.Translate2d(v2.Vec{X: 0.37, Y: -0.11})), "msq", 70000, 0, 0, 0))
+		}
+	}
 	reps := 3
 	if tier() == "thorough" {
 		reps = 12
